@@ -237,9 +237,11 @@ class World:
                     elif mid == CreatedPayload.msg_id:
                         p, _ = ov.serializer.unpack_serializable(CreatedPayload, data, offset=23)
                         rec["body"] = ["created", p.identifier, 1, None]
+                        rec["hs"] = "created"
                     elif mid == ExtendedPayload.msg_id:
                         p, _ = ov.serializer.unpack_serializable(ExtendedPayload, data, offset=23)
                         rec["body"] = ["extended", p.identifier, 1, None]
+                        rec["hs"] = "extended"
                     elif mid == ExtendPayload.msg_id:
                         rec["body"] = ["extend", 70000, 0, 0, 1]
                     elif mid == PingPayload.msg_id:
@@ -279,8 +281,11 @@ class World:
                     rec["body"][2] = 0
                 raise
             except Exception:
+                # the handshake does not verify: the handler is aborted (exception swallowed by
+                # on_packet_from_circuit), the retry cache must stay in charge of the circuit
                 if rec is not None and rec["body"][0] in ("created", "extended"):
                     rec["body"] = ["other"]
+                    world.count("handshake:verify_failed:" + rec.get("hs", "?"))
                 raise
         ov.crypto.verify_and_generate_shared_secret = verify
 
@@ -536,6 +541,41 @@ class World:
             raise InfraError("a node without candidates built a circuit")
         self.count("wanting_node")
 
+    def make_bad_cands(self, lab, count):
+        """faulty hop of another kind: the handshake verifies but the (encrypted) candidate list it returns cannot be
+        decoded (the length prefix promises more than there is)"""
+        ov = self.ov(lab)
+        orig = ov.serializer.pack
+        left = {"n": count}
+        world = self
+
+        def pack(fmt, item):
+            if fmt == "varlenH-list" and (left["n"] is None or left["n"] > 0):
+                if left["n"] is not None:
+                    left["n"] -= 1
+                world.count("bad_candidate_list_answer")
+                return b"\x05\xff\xf0garbage"
+            return orig(fmt, item)
+        ov.serializer.pack = pack
+
+    def make_bad_auth(self, lab, count):
+        """the node is a faulty / misbehaving hop: the authenticator of its first `count` (None: all) answers to a create
+        is damaged, so the originator cannot verify the handshake although identifier and circuit id are right"""
+        ov = self.ov(lab)
+        orig = ov.crypto.generate_diffie_shared_secret
+        left = {"n": count}
+        world = self
+
+        def damaged(dh_received, key=None):
+            shared_secret, crypt_pk, auth = orig(dh_received, key)
+            if left["n"] is None or left["n"] > 0:
+                if left["n"] is not None:
+                    left["n"] -= 1
+                world.count("bad_auth_answer")
+                auth = bytes([auth[0] ^ 1]) + auth[1:]
+            return shared_secret, crypt_pk, auth
+        ov.crypto.generate_diffie_shared_secret = damaged
+
     def kill(self, lab):
         """the node disappears from the network without a word (its own tables are no longer of interest)"""
         self.dead.add(lab)
@@ -784,6 +824,12 @@ def make_spec(rng, idx, forced=None):
         # non-originator nodes that want circuits of their own but cannot build any (no candidate discovered yet):
         # their do_circuits keeps failing at create_circuit every sweep period
         "wanting": rng.choice(["none", "none", "all", "some"]),
+        # faulty / misbehaving hops: [label, number of answers with a damaged authenticator (None = all)]
+        "bad_auth": [[rng.randrange(2, 7), rng.choice([1, 1, 2, None])] for _ in range(rng.choice([1, 2, 3]))]
+        if rng.random() < 0.2 else [],
+        # … or with a candidate list that cannot be decoded (the handshake itself verifies)
+        "bad_cands": [[rng.randrange(2, 7), rng.choice([1, 1, 2, None])] for _ in range(rng.choice([1, 2, 3]))]
+        if rng.random() < 0.15 else [],
     }
     if spec["hops"] == 1 and spec["teardown"] in ("relay_destroy", "relay_dies"):
         spec["teardown"] = rng.choice(["o_destroy", "exit_destroy", "exit_dies", "o_abandon"])
@@ -815,7 +861,7 @@ def spec_key(spec):
     return repr((spec["hops"], spec["phase"], spec["teardown"], spec["nodes"], spec["when"],
                  [(f["action"], f["kinds"], f["nth"], f["delay"], f["src"], f["dst"]) for f in spec["faults"]],
                  spec["chatty_outside"], spec["traffic_limit"], spec.get("payload"),
-                 spec.get("postmortem"), spec.get("wanting"), spec.get("companions")))
+                 spec.get("postmortem"), spec.get("wanting"), spec.get("companions"), spec.get("bad_auth"), spec.get("bad_cands")))
 
 
 async def run_scenario(world: World, spec, deadline_extra=0):  # noqa: C901, PLR0912, PLR0915
@@ -826,6 +872,12 @@ async def run_scenario(world: World, spec, deadline_extra=0):  # noqa: C901, PLR
     await world.build(exit_flags)
     for f in spec["faults"]:
         world.faults.append(Fault(f["action"], f["kinds"], f.get("src"), f.get("dst"), f["nth"], f["delay"]))
+    for lab, cnt in spec.get("bad_auth", []):
+        if lab <= world.n:
+            world.make_bad_auth(lab, cnt)
+    for lab, cnt in spec.get("bad_cands", []):
+        if lab <= world.n:
+            world.make_bad_cands(lab, cnt)
     wanting = spec.get("wanting", "none")
     for lab in range(2, world.n + 1):
         if wanting == "all" or (wanting == "some" and world.rng.random() < 0.5):
@@ -1408,6 +1460,16 @@ def run_all(ctx: Ctx, n_random, use_model, with_exhaustive):
                                                    "traffic_limit": False, "wanting": "none", "when": 10 * TPS,
                                                    "postmortem": []}), use_model)
             idx += 1
+        # hops whose created / extended does not verify (right identifier, damaged authenticator): always, once, only one node
+        for nodes, hops, bad in ((4, 2, [[2, None], [3, None], [4, None]]), (4, 3, [[2, 1], [3, 1], [4, 1]]),
+                                 (3, 2, [[3, None]]), (5, 3, [[2, None], [4, 2]]), (4, 1, [[2, None], [3, 1]])):
+            for field in ("bad_auth", "bad_cands"):
+                forced = {"nodes": nodes, "hops": hops, "teardown": "none", "companions": [], "phase": "halfbuilt",
+                          "faults": [], "traffic_limit": False, "wanting": "none", "when": 10 * TPS, "postmortem": [],
+                          "bad_auth": [], "bad_cands": []}
+                forced[field] = bad
+                run_case(ctx, make_spec(ctx.rng, idx, forced), use_model)
+                idx += 1
         run_case(ctx, {"nodes": 4, "hops": 2}, use_model, kind="age")
         for hops in (1, 2, 3):
             for variant in ("remove_now", "destroy0"):
